@@ -161,4 +161,19 @@ func init() {
 				Bound: "one rule violation per stream: fresh chunk stream starting with fmt 1/2/3; fmt 0 inside an unfinished message; length changed mid-message (other length 24 symbolic bits); plus the documented librtmp ping which must be accepted"},
 		},
 	})
+	reg(&propSpec{
+		ID:   "C03",
+		Rule: "Harnesses in harness/rtmp/c03.go: packet kinds fork (12 kinds), field values symbolic (numbers 64 bits, strings 0-2 symbolic bytes, AMF0 objects with 0-1 symbolic property, all 65536 user-control event types, all uint32 control values).",
+		Assumptions: append([]string{
+			"UserControl canonical field values: event data 0..255 for the 1-byte FMS event, extra data only for SetBufferLength",
+			"transaction ids of requests that expect a response are > 0 (the library registers only those)",
+			"reflect calls of ExpectPacket (TypeOf/Elem/Implements/AssignableTo/ValueOf/Value.Elem/Set) are answered by the engine from go/types",
+		}, rtmpAssume...),
+		Harnesses: []harnessSpec{
+			{Pkg: "rtmp", Func: "HarnessC03_Codec", Labels: []string{"codec"}, Bound: "every packet kind; Size/marshal/unmarshal/re-marshal with symbolic fields", BoundT: "strings also 255/256/65535 bytes"},
+			{Pkg: "rtmp", Func: "HarnessC03_Wire", Labels: []string{"wire"}, Bound: "requests and control packets: WritePacket on one endpoint, ReadMessage+DecodeMessage on the peer, stream id in {0,1,2}"},
+			{Pkg: "rtmp", Func: "HarnessC03_Transactions", Labels: []string{"tx", "tx-matched", "tx-unmatched"}, Bound: "histories of 3 (thorough 4) operations over {send connect, send createStream(tid symbolic > 0), receive _result(tid symbolic, body of either response type)}; ids are symbolic float64 bit patterns compared with IEEE equality"},
+			{Pkg: "rtmp", Func: "HarnessC03_Expect", Labels: []string{"expect", "expect-message", "expect-packet"}, Bound: "2-3 messages of forked kinds {window ack, ping, closeStream, connect}; ExpectMessage(type) for 3 types; ExpectPacket(&*ConnectAppPacket)"},
+		},
+	})
 }
